@@ -53,6 +53,8 @@ def judge(ctx, cases):
                 p = ctx.run([eb, "rt", "-cases", cx], stdin=fi, timeout=1500)
             fo.write(p.stdout)
             index += verif.read_ndjson(cx)
+    ctx.cov["calls_skipped_after_confirmed_hang"] = ctx.cov.get("calls_skipped_after_confirmed_hang", 0) + sum(
+        1 for l in open(trace, "rb") if b'"skip":true' in l)
     res = ctx.validate("TraceRecompose", trace, cfg=TRACE_CFG, chunk=4000, heap="3g", timeout=1500)
     ctx.cov["evaluations"] += sum(2 * len(c["h"]) for c in hist) + (res["n"] - len(hist) if rts else 0)
     recs = []
@@ -82,7 +84,9 @@ def judge(ctx, cases):
             api, locus = b["api"], ("alias|" if b["kind"] == "aliased" else "inverse|") + culprit
             cls = b.get("t", "-")
             if b["kind"] == "hang":
-                locus = "hang|" + culprit
+                # one group per recursive type (member, element and top-level target alike): every group is confirmed
+                # stand-alone, which takes the generous limit (>= 60 s) each
+                locus = "hang|" + culprit.replace("top:", "")
                 if cls == "embedded-pointer-cycle" and "stack" in (b["m"] or ""):
                     # as-implemented reading (C15 F19): the encoders overflow the stack while building the field plan of a
                     # struct that embeds a pointer to itself
